@@ -244,6 +244,38 @@ func fixedAndEnums(run *ev.Run, set *bridge.Set, td *corpus.TypeDef) {
 				} else {
 					run.Distinct(fmt.Sprintf("enum|dec|%s|%s|%s", full, txt, f.Name))
 				}
+				// the same document read into a variable that already holds a declared symbol (a reused struct, the second
+				// element decoded in place): the earlier symbol must not survive
+				for _, prev := range []string{td.Symbols[0], td.Symbols[len(td.Symbols)-1]} {
+					if prev == want {
+						continue
+					}
+					held, berr := codec.BuildGo(set, full, &model.Value{Kind: model.KEnum, S: prev})
+					r, rerr := f.NewReader(doc)
+					if berr != nil || rerr != nil {
+						continue
+					}
+					run.Eval(1)
+					run.Count("enum_reused_receiver_cases", 1)
+					_, err := codec.DecodeWith(r, held)
+					desc := map[string]any{"generation": GENERATION, "type": full, "text": txt, "symbols": td.Symbols, "format": f.Name, "error": errText(err), "receiver_held": prev}
+					if isPanic(err) {
+						run.Violation(GENERATION+"/enum/decode/panic", desc)
+						continue
+					}
+					if err != nil {
+						continue // rejected: judged above on the fresh receiver
+					}
+					got, _ := set.Read(held.Elem(), corpus.R(full))
+					desc["decoded"] = model.Show(got)
+					if got.S != want {
+						if got.S == prev {
+							run.Violation(GENERATION+"/enum/decode/reused-receiver-keeps-earlier-symbol", desc)
+						} else {
+							run.Violation(GENERATION+"/enum/decode/reused-receiver-wrong-symbol", desc)
+						}
+					}
+				}
 			}
 		}
 	}
